@@ -506,3 +506,19 @@ func replayExitAfterDefer(rc *runCtx, h *harness, v *interp.Violation, file stri
 	}
 	return false, "the real checker stays silent on the namesake"
 }
+
+// replayRangeAppendAll: the program of the model with a user-declared append.
+func replayRangeAppendAll(rc *runCtx, h *harness, v *interp.Violation, file string) (bool, string) {
+	if !v.Model["append is a user function?b"].B {
+		return false, "model without a user-declared append"
+	}
+	src := "package cand\n\nfunc append(a []int, b ...int) []int { return a }\n\nfunc g(xs []int) []int {\n\tvar out []int\n\tfor range xs {\n\t\tout = append(out, xs...)\n\t}\n\treturn out\n}\n"
+	results, err := runRealised("rangeAppendAll", nil, []string{src}, "")
+	if err != nil {
+		return false, err.Error()
+	}
+	if len(results) > 0 && results[0].Status == "OK" && results[0].Warnings > 0 {
+		return true, "the real checker reports a call of a user-declared append: " + results[0].JSON + "\n" + src
+	}
+	return false, "the real checker stays silent on the namesake"
+}
